@@ -76,6 +76,9 @@ def alias_maps(max_aliases: int):
     out.append({'_i': 'A'})
     out.append({'_i': 'B', 'J': '_i'})
     out.append({'__k': 'X'})
+    # ... or are not Python identifiers at all (labels of published series: 'GDP (real)', 'gdp.real')
+    out.append({'GDP (real)': 'A'})
+    out.append({'gdp.real': 'B', 'J': 'gdp.real'})
     return out
 
 
